@@ -146,7 +146,12 @@ type fileShape struct {
 }
 
 func fileShapes(r *Rng) fileShape {
-	switch r.Intn(6) {
+	switch r.Intn(8) {
+	case 6:
+		// a name that is also a shell/glob pattern, next to a file the pattern would match
+		return fileShape{name: "glob-brackets", rel: "v[1].dsl", real: "v[1].dsl", disk: []DiskEntry{{Path: "v1.dsl", Kind: "file", Data: []byte("packet MatchedByThePattern {   }\n")}}}
+	case 7:
+		return fileShape{name: "glob-wildcards", rel: "what?*.dsl", real: "what?*.dsl", disk: []DiskEntry{{Path: "whats-up.dsl", Kind: "file", Data: []byte("packet  AlsoMatched{}")}}}
 	case 0:
 		return fileShape{name: "relative", rel: "in.dsl", real: "in.dsl"}
 	case 1:
